@@ -3,7 +3,7 @@ import Driver.Engine
 /-! Line protocol for the restart model (`WfModel/Replay.lean`); every op of the `engine`
 driver is accepted too (same parsers/printers, same state), so a resumed runner can be driven on.
 
-    legacy _ | legacy <state>                       set / clear the legacy ctx state (after `cfg`)
+    legacy _ | legacy <state> | legacy-current      set / clear the legacy ctx state (after `cfg`); -current = the engine state
     replay <now0> <now> <policy> <n> <tick>*n       replay_ticks_stream from legacy-or-from_workflow
     status                                          handler_status_from_exit_command of the last replay
     ctx <now0> <now> <policy> <n> <tick>*n          context_from_ticks
@@ -62,6 +62,7 @@ def step (d : RState) (line : String) : RState × String :=
     let (e, out) := Drv.Engine.step d.eng line
     ({ d with eng := e, legacy := none, last := none }, out)
   | ["legacy", "_"] => ({ d with legacy := none }, "ok")
+  | ["legacy-current"] => ({ d with legacy := some d.eng.st }, sState d.eng.cfg d.eng.st)
   | "legacy" :: ts =>
     match stateP d.eng.cfg ts with
     | some (s, []) => ({ d with legacy := some s }, sState d.eng.cfg s)
